@@ -14,6 +14,8 @@ def run(ctx, crate):
     K.rule_no_unsafe(ctx, crate)
     D.rule_rows_newtype(ctx, crate)
     D.rule_width_source(ctx, crate)
+    D.rule_line_kinds(ctx, crate)
+    D.rule_bar_rows_split(ctx, crate)
     D.rule_height_guard(ctx, crate)
     D.rule_text_not_counted(ctx, crate)
     D.rule_draw_order(ctx, crate)
